@@ -7,7 +7,7 @@
  *   compile #0 of P in the fresh child   -> result R0, machine code B0 (orccode->code[0..code_size)), listing A0
  *   history (0..14 other compiles for random targets, kept, freed or handed off; P#0 kept alive or freed)
  *   compile #1 of a freshly built P, at another debug level -> R1 == R0, B1 == B0 byte for byte, A1 == A0
- *   reset + compile #2 of the same program object -> again equal
+ *   reset + compile #2 of the same program object (in 2 of 3 cases after compiling that object for another target) -> again equal
  *   x86 with flags within the machine's features: code #0 (old placement) and code #2 (new placement) run on identical inputs
  *   give bit-identical outputs (floats included), and running the same code twice gives the same outputs.
  * A crash inside compile #0 is not a determinism question (C05 owns it): such cases are counted as excluded.
@@ -22,7 +22,7 @@ int vprop_fork = 1;
 int vprop_cpu_limit_s = 60;
 const char *vprop_class_names[V_NCLASS] = {
   "x86_target", "non_native_target", "placement_differs", "debug_level_differs", "history_ge_4", "ran_both_placements",
-  "compile_failed_consistently", "non_default_flags", "p0_freed_before_recompile", "float_program", NULL
+  "compile_failed_consistently", "non_default_flags", "p0_freed_before_recompile", "float_program", "same_object_compiled_for_other_target_in_between", NULL
 };
 
 static const char *tnames[8] = { "avx", "sse", "mmx", "altivec", "neon", "mips", "c64x-c", "c" };
@@ -204,8 +204,18 @@ void vprop_case (VChoices *c, VResult *r)
     v_fail (r, sig, "compile #0 vs compile #1 of the same program (debug level %d vs %d, %d history operations): %s", lvl0, lvl1, nhist, msg);
     return;
   }
-  /* compile #2: reset the same object and compile again */
+  /* compile #2: reset the same object and compile again; in two cases out of three the object is first compiled for ANOTHER target
+     in between (a compile must not leave anything behind in the program object that changes a later compile) */
   orc_debug_set_level (lvl2);
+  if (vc_pick (c, 3) != 0) {
+    int t3 = (int) vc_pick (c, 8);
+    OrcTarget *other = orc_target_get_by_name (tnames[t3]);
+    v_stage (r, "@notmine: reset + compile for %s in between", tnames[t3]);
+    orc_program_reset (p1);
+    orc_program_compile_full (p1, other, orc_target_get_default_flags (other));
+    v_desc (r, "# the same object is compiled for %s before the third compile\n", tnames[t3]);
+    r->classes |= 1u << 10;
+  }
   v_stage (r, "reset + third compile target=%s", tnames[t]);
   orc_program_reset (p1);
   res = orc_program_compile_full (p1, target, flags);
